@@ -7,7 +7,7 @@ from vlib import observe, runner
 from vlib.jsonvals import canon
 
 from statham.schema.elements import (
-    AllOf, AnyOf, Array, Element, Not, Object, OneOf, String,
+    AllOf, AnyOf, Array, Element, Not, Nothing, Object, OneOf, String,
 )
 from statham.schema.elements.meta import ObjectClassDict, ObjectMeta
 from statham.schema.exceptions import SchemaParseError
@@ -33,6 +33,9 @@ RULE = (
 RULE += (
     ' Round 9: the parser route runs twice, over the document as written and over the document with every typed object schema written with a one-element type list (the parser then meets already parsed values).'
 )
+RULE += (
+    ' Round 10: wrappers anyOf-true, anyOf-true-first, oneOf-false, allOf-single, not-not (a class next to a trivial composition member).'
+)
 ASSUMPTIONS = [
     "class names are unique (orderer's documented precondition)",
     "termination detector is a deterministic line-count budget, not a proof",
@@ -43,7 +46,10 @@ WRAPPERS = ["items", "tuple", "additionalItems", "contains", "properties", "patt
             "additionalProperties", "propertyNames", "dependencies", "anyOf", "oneOf", "allOf", "not",
             # the same keyword positions reached another way: on an untyped element, or next to a sibling keyword that
             # makes them irrelevant for VALIDATION (a class standing there is still part of the module)
-            "additionalItems-single", "element-additionalItems", "element-items", "element-contains", "element-tuple"]
+            "additionalItems-single", "element-additionalItems", "element-items", "element-contains", "element-tuple",
+            # next to a trivial member (true / {} / false): the composition is then equivalent to something simpler,
+            # but the class standing in it is still part of the module
+            "anyOf-true", "anyOf-true-first", "oneOf-false", "allOf-single", "not-not"]
 STEP_BUDGET = 3_000_000
 
 
@@ -78,6 +84,16 @@ def wrap(kind, inner):
         return Element(dependencies={"n": ["a", "b"], "a": inner, "z": []})
     if kind == "anyOf":
         return AnyOf(String(), inner)
+    if kind == "anyOf-true":
+        return AnyOf(inner, Element())
+    if kind == "anyOf-true-first":
+        return AnyOf(Element(), inner, String())
+    if kind == "oneOf-false":
+        return OneOf(Nothing(), inner)
+    if kind == "allOf-single":
+        return AllOf(inner)
+    if kind == "not-not":
+        return Not(Not(inner))
     if kind == "oneOf":
         return OneOf(inner, String())
     if kind == "allOf":
